@@ -128,6 +128,15 @@ def walkEntries : Entries → List (List String)
 /-- `package_modpaths(pkgpath)` with `check=True`: nothing unless the directory itself is a package -/
 def walk (pkg : Entries) : List (List String) := if pkg.isPkg then walkEntries pkg else []
 
+/-- regular sub-packages (directory paths relative to the directory) the walk passes through: with `with_pkg=True` the walk also
+    yields their `__init__.py` (repair of F-C09b: a selected package expands to the names of its sub-packages too) -/
+def walkPkgEntries : Entries → List (List String)
+  | .nil => []
+  | .cons _ .file r => walkPkgEntries r
+  | .cons n (.dir d) r => (if d.isPkg then [n] :: (walkPkgEntries d).map (fun p => n :: p) else []) ++ walkPkgEntries r
+
+def walkPkgs (pkg : Entries) : List (List String) := if pkg.isPkg then walkPkgEntries pkg else []
+
 def Entries.toList : Entries → List (String × Node)
   | .nil => []
   | .cons n x r => (n, x) :: r.toList
@@ -136,5 +145,10 @@ def Entries.toList : Entries → List (String × Node)
 inductive InPkg : Entries → List String → Prop
   | modHere (es : Entries) (n : String) : (n, Node.file) ∈ es.toList → isModuleFile n = true → InPkg es [n]
   | inSub (es d : Entries) (n : String) (p : List String) : (n, Node.dir d) ∈ es.toList → d.isPkg = true → InPkg d p → InPkg es (n :: p)
+
+/-- specification: `p` is the path of a regular package nested in regular packages below the directory -/
+inductive SubPkg : Entries → List String → Prop
+  | direct (es d : Entries) (n : String) : (n, Node.dir d) ∈ es.toList → d.isPkg = true → SubPkg es [n]
+  | nested (es d : Entries) (n : String) (p : List String) : (n, Node.dir d) ∈ es.toList → d.isPkg = true → SubPkg d p → SubPkg es (n :: p)
 
 end LPVerif.FS
